@@ -24,6 +24,7 @@ from variants import VARIANTS  # noqa
 
 
 RENAMED = False
+XFLAGS = []
 
 
 def run_variant(v, with_tests=False):
@@ -50,7 +51,7 @@ def run_variant(v, with_tests=False):
         if RENAMED:
             # rename every function-local name of the variant: neither the alarm nor the
             # silence may depend on what locals are called
-            r = subprocess.run([os.path.join(VERIF, "bin", "renamer"), "-src", d, "-dst", d], env=ENV, capture_output=True, text=True)
+            r = subprocess.run([os.path.join(VERIF, "bin", "renamer"), "-src", d, "-dst", d] + XFLAGS, env=ENV, capture_output=True, text=True)
             if r.returncode != 0:
                 return (v["id"], False, "renamer failed: " + (r.stdout + r.stderr)[-300:])
             b = subprocess.run(["go", "build", "./..."], cwd=d, env=ENV, capture_output=True, text=True)
@@ -96,9 +97,12 @@ def main():
     ap.add_argument("--tests", action="store_true")
     ap.add_argument("--json", default="")
     ap.add_argument("--renamed", action="store_true", help="rename all locals of each variant before checking")
+    ap.add_argument("--mirror", action="store_true", help="mirror every comparison of each variant before checking")
+    ap.add_argument("--flip", action="store_true", help="invert every if/else of each variant before checking")
     a = ap.parse_args()
-    global RENAMED
-    RENAMED = a.renamed
+    global RENAMED, XFLAGS
+    RENAMED = a.renamed or a.mirror or a.flip
+    XFLAGS = (["-mirror"] if a.mirror else []) + (["-flip"] if a.flip else [])
     vs = [v for v in VARIANTS if a.k in v["id"] or a.k in str(v["prop"])]
     ok = True
     results = []
